@@ -251,7 +251,11 @@ func recordLib(args []string) error {
 		}
 	case "boundary", "large":
 		for i, n := range sz {
-			r.scenarioSized(i, n, *scen == "boundary")
+			r.scenarioSized(i, n, *scen == "boundary", kinds[i%3])
+			if n > 1001 && kinds[i%3] != "big" {
+				// beyond the 1000-row / 1000-value batches every size is also built by the big writer
+				r.scenarioSized(i+1, n, *scen == "boundary" && n <= 2500, "big")
+			}
 		}
 	case "reuse":
 		for i := 0; i < *runs; i++ {
@@ -365,7 +369,7 @@ func indexOf(xs []string, s string) int {
 
 // scenarioSized: row counts around the batch sizes (1000 values / 1000 rows) and roaring's
 // container boundaries; value distributions sparse / dense / run-shaped / unique-per-row.
-func (r *libRec) scenarioSized(i, n int, unique bool) {
+func (r *libRec) scenarioSized(i, n int, unique bool, kind string) {
 	rng := r.rng
 	nv := 60
 	if unique {
@@ -396,7 +400,6 @@ func (r *libRec) scenarioSized(i, n int, unique bool) {
 		gens = append(gens, colGen{col: 5, present: 1, gen: func(i int) int { return 1 + i }, card: n}) // unique per row
 	}
 	rows := genDataset(rng, n, gens, i%2)
-	kind := kinds[i%3]
 	wr, ok := r.newWriter(1, kind)
 	if !ok {
 		return
